@@ -69,3 +69,46 @@ impl TryRng for ScriptRng {
         Ok(())
     }
 }
+
+/// Generator for the mirror rebuild (C01): the j-th `random::<bool>()` (one u32 word: the doubling
+/// direction) is `dirs[j]`; every u64 word (the multinomial coins of `merge_into`, which do not
+/// influence the shape of the tree) comes from a seeded SplitMix stream.
+pub struct DirRng {
+    pub dirs: Vec<bool>,
+    pub pos: usize,
+    pub coins: SplitMix,
+    pub n_u64: usize,
+    pub exhausted: bool,
+}
+
+impl DirRng {
+    pub fn new(dirs: Vec<bool>, seed: u64) -> Self {
+        DirRng { dirs, pos: 0, coins: SplitMix(seed), n_u64: 0, exhausted: false }
+    }
+}
+
+impl TryRng for DirRng {
+    type Error = Infallible;
+    fn try_next_u32(&mut self) -> Result<u32, Infallible> {
+        let fwd = if self.pos < self.dirs.len() {
+            self.dirs[self.pos]
+        } else {
+            self.exhausted = true;
+            false
+        };
+        self.pos += 1;
+        // `bool` is the sign bit of the u32
+        Ok(if fwd { 0x8000_0000 } else { 0 })
+    }
+    fn try_next_u64(&mut self) -> Result<u64, Infallible> {
+        self.n_u64 += 1;
+        Ok(self.coins.next())
+    }
+    fn try_fill_bytes(&mut self, dst: &mut [u8]) -> Result<(), Infallible> {
+        for chunk in dst.chunks_mut(8) {
+            let w = self.coins.next().to_le_bytes();
+            chunk.copy_from_slice(&w[..chunk.len()]);
+        }
+        Ok(())
+    }
+}
